@@ -486,12 +486,12 @@ impl<'a> FixedBumpString<'a> {
                 };
             }
 
+            self.assert_char_boundary(start);
+            self.assert_char_boundary(end);
+
             if start == end {
                 return FixedBumpString::new();
             }
-
-            self.assert_char_boundary(start);
-            self.assert_char_boundary(end);
 
             let head_len = start;
             let tail_len = len - end;
